@@ -196,5 +196,8 @@ pub fn fingerprint(d: &D, seed: u64) -> String {
 
 /// quarter-coded parameter tuple -> real values
 pub fn params_of(kind: &str, q: &[i64]) -> Vec<f64> {
-    q.iter().enumerate().map(|(i, v)| if int_field(kind, i) { *v as f64 } else { *v as f64 / 4.0 }).collect()
+    // real-valued fields are quarters unless the tuple carries its own denominator after the arity(kind) fields
+    let a = arity(kind);
+    let den = if q.len() > a { q[a] as f64 } else { 4.0 };
+    q.iter().take(a).enumerate().map(|(i, v)| if int_field(kind, i) { *v as f64 } else { *v as f64 / den }).collect()
 }
